@@ -30,9 +30,10 @@ def check(w):
     # rule syntax the implementation cannot honour must yield an error, never a crash
     base = scen[0]
     for arr in ("pull", "push", "local"):
-        for pat in ("*.o", "a?", "[ab]"):
+        # ... also in the directory spelling (trailing slash), anchored, as an include, and in the -f spelling
+        for flag in ("--exclude=*.o", "--exclude=a?", "--exclude=[ab]", "--exclude=d*/", "--exclude=?/", "--exclude=[de]/", "--exclude=/d*", "--include=d*/", "--filter=- d?/", "--filter=+ *"):
             ln = p_sync.mk_line(base, arr, JUDGE, wild=True)
-            ln["flags"] = ln["flags"] + ["--exclude=" + pat]
+            ln["flags"] = ln["flags"] + [flag]
             lines.append(ln)
     counts = {}
     obs, rej = p_sync.run_validate_confirm(w, "c13", lines, "c13", v, counts, sig)
